@@ -48,6 +48,27 @@ CHECKS = {
  'C20': dict(engine=E2, ref='DESIGN.md 3/C20', technique='stateless exploration: exhaustive enumeration of interleavings of descriptor arrivals and reads (under cut sets) on the real receiver; exhaustive call sequences on the real sender',
    text='Every sequence of up to 3 calls over 9 bodies is sent through callRemote and the transport log compared (descriptors in argument order ahead of the bytes, declared count, indexes). The same sequences, reference-encoded in both byte orders, are delivered under no cut / every single cut (pairs when thorough) in every order of descriptor arrivals and reads a stream socket allows; a trailing probe message shows exactly the declared count was consumed.',
    note='Descriptors are plain integers on a fake transport; arrival model is the statement\'s.'),
+ 'C10': dict(engine=E2, ref='DESIGN.md 3/C10', technique='bounded-exhaustive enumeration of call histories (every ordered pair from a call pool, 4 export orders) on freshly built object classes; enumerated firing orders of held Deferreds; reference dispatcher',
+   text='A pool of several hundred incoming calls (right/wrong path, interface, member, signature, reply flag; dbus_ and decorator bindings, one member on two interfaces, base/derived classes binding members of one interface, dbusCaller) is delivered as real bytes: every single call under 4 export orders and every ordered pair; replies are parsed by the reference parser and compared with a reference dispatcher (who runs, how often, reply count, addressing, serial, encoding, error names). Two held Deferreds are fired in both orders with value / failure / unencodable value.',
+   note='History length 2. With no interface header any declaring interface may be chosen.'),
+ 'C11': dict(engine=E2, ref='DESIGN.md 3/C11', technique='stateless depth-first exploration of all delivery interleavings (plus bounded cuts) of the composed bus + clients system, one real execution per path',
+   text='A real Bus with 2-3 (4 thorough) real client connections joined by byte queues is brought up with real authentication, Hello, export, RequestName and proxy acquisition (explicit interface or introspection); then for 8 (10) scenarios of 2-3 concurrent proxy calls every delivery order of the queued chunks and every firing point of held Deferreds, plus up to 1 (2) cut inside a chunk, is executed and the results compared with what the exported methods returned or raised.',
+   note='One chunk per transport write; all parties in one process.'),
+ 'C12': dict(engine=E1, ref='DESIGN.md 3/C12', technique='exhaustive enumeration of rule x message pairs against an independent matcher; explicit-state BFS over add/remove/route histories; rule-text round trip through an independent parser and the built-in bus',
+   text='Every rule with up to 3 (all 9 thorough) constraint keys, two values each, against ~1500 messages through the real router; BFS over addMatch/delMatch/signal histories on a real client connection (callbacks that raise, id reuse); the AddMatch text of every rule with up to 2 (3) keys parsed independently and fed to the built-in bus whose broadcasts must follow the matcher; proxy notifyOnSignal/cancelSignalNotification with matching and mismatching signatures.',
+   note='sender / arg0namespace constraints are outside the statement.'),
+ 'C14': dict(engine=E2, ref='DESIGN.md 3/C14', technique='explicit-state BFS over send / consume (whole or prefix) / name-takeover / match-rule / disconnect events on a real Bus with scripted raw clients against a reference bus',
+   text='Three raw clients; 12 message templates (all types, every destination kind, forged / true / absent sender, flag bits); outbound queues let the bus consume messages in every order relative to ownership changes, rule changes and a disconnect, whole or prefix-first. Every arriving message is parsed by the strict reference parser and compared with the reference bus. A second search covers connect/disconnect histories for fresh unique names.',
+   note='Depth 4 quick / 6 thorough; >= 1 copy demanded for broadcasts.'),
+ 'C15': dict(engine=E1, ref='DESIGN.md 3/C15', technique='bounded-exhaustive enumeration of interface definitions; XML checked by an independent parser and the reference signature splitter; parse-back comparison; proxy acceptance',
+   text='Every (in, out) pair of a pool of 40 (more thorough) signature sequences as a method, every signal, every property type x access x notification, fuller interfaces, and objects with 2-3 interfaces in every order x every subset registered locally x replace flag.',
+   note='Notification mode after parsing not compared.'),
+ 'C16': dict(engine=E2, ref='DESIGN.md 3/C16', technique='explicit-state BFS over export/unexport histories (all 128 exported sets reached; plus undeduplicated histories), every path queried after every step',
+   text='After every export/unexport over a 7-path universe with prefix-sharing siblings, each path and two outsiders are queried with real call bytes (ordinary call, Introspect, GetManagedObjects) and compared with the set-theoretic reference; each event must announce itself with exactly one InterfacesAdded/Removed.',
+   note='Export only of unexported paths, unexport only of exported ones.'),
+ 'C17': dict(engine=E2, ref='DESIGN.md 3/C17', technique='explicit-state BFS over local assignments and remote Set calls on two objects (base/derived, same-named property on two interfaces), full read-back through Get/GetAll after every step against a reference store',
+   text='11 property declarations over 3 interfaces; every assignment and every Set (right / empty / other interface name, unknown property) to depth 2 (3), both class initialisation orders; after every event the Set reply, the PropertiesChanged signals and the whole table read back through GetAll and Get under right / empty / unknown interface names.',
+   note='Ambiguous empty-interface access may choose either declaration; wrongly typed Sets are outside the statement.'),
 }
 
 REASON_TODO = 'check not built yet in this snapshot (planned in DESIGN.md section 3); nothing is claimed for it'
